@@ -35,6 +35,7 @@ type c11Script struct {
 	DstLen   int               `json:"dst_len,omitempty"`
 	ShortLen int               `json:"short_len,omitempty"` // misuse: length of the too-short argument
 	SpareCap int               `json:"spare_cap,omitempty"` // misuse: capacity beyond len of the short argument
+	Cold     bool              `json:"cold,omitempty"`      // everything (object construction and the call) runs on an OS thread that never ran library code (seam S7)
 	Giant    string            `json:"giant,omitempty"`     // one call with an argument of 2^32 bytes or more (see giant.go)
 }
 
@@ -75,7 +76,7 @@ func (c11) Meta() core.Meta {
 			"oracle": "hardware page protection + canary bytes; runtime.Error.Addr() attributes the fault to an arena guard page"},
 		Assumptions: []string{"a fault is only detected when the stray access reaches the adjacent guard page (accesses that stay inside the allocation's own pages are caught by canaries if they write, not if they read)",
 			"ordinary panics and wrong results are not judged here", "a block or ciphertext shorter than required must give a panic or an error even when cap(slice) would allow the access"},
-		FaultKinds: []string{"guard:tail", "guard:head", "interior+canary", "misuse:short-block", "misuse:short-ciphertext"},
+		FaultKinds: []string{"guard:tail", "guard:head", "interior+canary", "misuse:short-block", "misuse:short-ciphertext", "thread:cold"},
 		ProbeNames: []string{"tail-1..15", "empty-plaintext", "kernel", "misuse-refused", "len>=256"},
 		StepUnit:   "library calls",
 	}
@@ -182,6 +183,7 @@ func (c11) Generate(idx int, r *core.Rand, tier string) core.Script {
 	}
 	s.Align = m.Intn(64)
 	s.DstLen = m.PickInt(0, 0, 1, 7, 16, 33)
+	s.Cold = r.Split("thread").Chance(1, 10)
 	return s
 }
 
@@ -204,6 +206,7 @@ func (c11) Execute(sc core.Script, keep bool) *core.Result {
 	s := sc.(*c11Script)
 	res := core.NewResult()
 	log := &core.Log{Keep: keep}
+	gcmCanon()
 	ar := c11Arena
 	ar.Reset()
 	defer func() {
@@ -337,7 +340,10 @@ func (c11) Execute(sc core.Script, keep bool) *core.Result {
 		}
 		returnedNormally = true
 	}
-	p, txt, addr, isFault := core.Catch(body)
+	if s.Cold {
+		res.Faults["thread:cold"]++
+	}
+	p, txt, addr, isFault := core.Catch(func() { core.On(s.Cold, body) })
 	debug.SetPanicOnFault(false)
 	var sideList []string
 	for _, k := range []string{"nonce", "aad", "src", "dst", "key"} {
